@@ -13,7 +13,7 @@ MODULE = "C02"
 IMPORTS = "Bytes RustInt RustStd Panics PanicsProofs"
 PROFILES = ("dev", "nochk")
 KERNEL_SAMPLE = 30
-THEOREMS = []     # filled in at the end of the file
+THEOREMS = []     # pinned statements: at the end of the file
 
 MAXLEN = 16384
 LIMIT = 65536
@@ -379,6 +379,15 @@ def generate(rng, tier):
                             [rng.random() < 0.4 for _ in range(rng.randrange(0, 8))], "query-iter", rng.choice(PROFILES)))
     for p, q in [(b"/", None), (b"/", b""), (b"/a", b"b"), (b"/a", b"?"), (b"/\xc3\xa9", b"\xc3\xa9"), (b"/" + b"a" * 300, b"b" * 300), (b"/a?", None)]:
         cases.append(pq_case(p, q, "pathquery"))
+    # kvarn-cache-control (a RESPONSE header of a handler / upstream, not client input): u32 multiplication
+    for v in [b"none", b"full", b"1s", b"10m", b"2h", b"1d", b"0d", b"49710d", b"49711d", b"71582788m", b"71582789m", b"1193046h", b"1193047h",
+              b"4294967295s", b"4294967296s", b"4294967295d", b"4294967295m", b" 5m ", b"5x", b"m", b"5", b"", b"+5m", b"-5m", b"5mm", b"1\tm"]:
+        for prof in PROFILES:
+            cases.append(Case("cc.kvarn", xl(xbool(prof == "dev"), xb(v)), None, {"kind": "kvarn-cc"}, prof))
+    for _ in range(100 if quick else 5000):
+        v = mutate(rng, b"%d%s" % (rng.choice(EXTREME[:9]), rng.choice([b"s", b"m", b"h", b"d"])), b"0123456789smhd +x")
+        prof = rng.choice(PROFILES)
+        cases.append(Case("cc.kvarn", xl(xbool(prof == "dev"), xb(v)), None, {"kind": "kvarn-cc"}, prof))
     # served files whose first line is an extension line (C16's component)
     for w in words(ALPHA_P, 3 if quick else 5):
         cases.append(Case("present.parse", xb(b"!> " + w), None, {"kind": "present-words"}))
@@ -448,6 +457,10 @@ def signature(c, m):
 
 
 def classify(c, i):
+    # integer * multiplier in from_kvarn_cache_control, builds with overflow checks only; the value comes from a handler's or an
+    # upstream server's RESPONSE, never from the client
+    if c.comp == "cc.kvarn" and c.profile == "dev" and i.startswith(PANIC):
+        return "kvarn-cache-control-overflow"
     return None
 
 
@@ -543,3 +556,49 @@ LEVEL_NOTE = ("Partial by construction: panic-freedom is proved for the modelled
               "the hand transcriptions as validated by the differential runs. No axioms.")
 TECHNIQUE = "Coq proof (no Panic outcome for all inputs) + differential correspondence with exact panic prediction + model-independent no-panic oracle + loopback exploration"
 EXHAUSTIVE = False
+
+# pinned statements (checked with `Check (name : statement)` and `Print Assumptions` on every run)
+THEOREMS = [
+    ("head_never_panics",
+     "forall (grow : nat -> nat -> nat -> nat) (mode : N) (https : bool) (dh : option bytes) (max_len : nat) (limit : N) (stream : bytes) (sched : list nat), Http1Read.serve grow mode https dh max_len limit stream sched <> Panic"),
+    ("request_line_never_panics",
+     "forall (https : bool) (dh : option bytes) (buffer : bytes), Http1Read.parse_request https dh buffer <> Panic"),
+    ("headers_never_panics",
+     "forall b : bytes, Http1Read.parse_headers b <> Panic"),
+    ("range_never_panics",
+     "forall (checked : bool) (hdr : option bytes) (body : bytes), N.of_nat (length body) <= u64_max -> Range.serve_range checked hdr 200 body <> Panic"),
+    ("sanitize_never_panics",
+     "forall p : bytes, PathSan.sanitize_path p <> Panic"),
+    ("fs_path_never_panics",
+     "forall host public p : bytes, PathSan.sanitize_path p = Ok tt -> PathSan.request_fs_path host public p <> Panic"),
+    ("list_header_never_panics",
+     "forall (parse_q : bytes -> option Negotiate.qclass) (h : bytes), exists l, Negotiate.list_header parse_q h = l /\\ (length l <= S (ListHeaderProofs.commas h))%nat"),
+    ("query_never_panics",
+     "forall q : bytes, query q <> Panic"),
+    ("query_iter_never_panics",
+     "forall (q name : bytes) (script : list bool), query_script false q name script <> Panic"),
+    ("query_get_last_v0_refuted",
+     "forall q name : bytes, query_script true q name [true] = Panic"),
+    ("pathquery_never_panics",
+     "forall (path : bytes) (query : option bytes), pq_path (pq_from path query) = Ok path /\\ exists r, pq_query (pq_from path query) = Ok r"),
+    ("host_choice_never_panics",
+     "forall (ops : list Hosts.op) (c : Hosts.collection) (sni : option bytes) (hh : list bytes), Hosts.build ops = Ok c -> Hosts.choose_host Hosts.V1 c sni hh <> Panic"),
+    ("limiter_never_panics",
+     "forall (checked : bool) (cfg : Limiter.config) (t0 : N) (h : list Limiter.event), Limiter.fits (length h) -> Forall (fun d => exists a, d = Ok a) (Limiter.decisions checked cfg t0 h)"),
+    ("conn_never_panics",
+     "forall (checked caching : bool) (pg : RangeConn.page) (cache : option RangeConn.page) (q : RangeConn.creq), RangeConn.page_fits pg -> RangeConn.cache_ok pg cache -> fst (RangeConn.conn_step checked caching pg cache q) <> Panic"),
+    ("stream_window_never_panics",
+     "forall (checked : bool) (hdr : option bytes) (range : option (N * N)) (file_len : N), Range.sanitize_range hdr = Ok range -> stream_window checked range file_len <> Panic"),
+    ("stream_chunk_never_panics",
+     "forall (checked : bool) (pos read end_ : N), pos < end_ -> pos + read <= u64_max -> stream_chunk checked pos read end_ <> Panic"),
+    ("present_line_never_panics",
+     "forall data : bytes, exists r, PresentLine.present_parse data = Ok r /\\ match r with | Some p => (PresentLine.p_data_start p <= length data)%nat /\\ PresentLine.p_body p = skipn (PresentLine.p_data_start p) data | None => True end"),
+    ("nonce_rewriter_never_panics",
+     "forall nonce body : bytes, Nonce.nonce_rewrite nonce body <> Panic /\\ forall e, Nonce.nonce_rewrite nonce body <> Err e"),
+    ("kvarn_cache_control_unchecked_never_panics",
+     "forall h : bytes, CacheControl.from_kvarn_cache_control false h <> Panic"),
+    ("kvarn_cache_control_checked_refuted",
+     "CacheControl.from_kvarn_cache_control true (B \"4294967295d\") = Panic"),
+    ("request_path_never_panics",
+     "forall (grow : nat -> nat -> nat -> nat) (parse_q : bytes -> option Negotiate.qclass) (checked : bool) (mode : N) (https : bool) (ops : list Hosts.op) (c : Hosts.collection) (dh : option bytes) (max_len : nat) (limit : N) (public : bytes) (cors_default_deny caching : bool) (pg : RangeConn.page) (cache : option RangeConn.page) (stream : bytes) (sched : list nat), Hosts.build ops = Ok c -> RangeConn.page_fits pg -> RangeConn.cache_ok pg cache -> request_path grow parse_q checked mode https c dh max_len limit public cors_default_deny caching pg cache stream sched <> Panic"),
+]
